@@ -122,6 +122,38 @@ def run(R):
         R.cover('classes', name)
         R.cover('sharing', min(8, max_fanin(cells)))
         R.extra['largest_dag'] = max(R.extra.get('largest_dag', 0), n)
+    # ---- what was parsed before must not matter: a cell and its twin of another type (same bits, same references, so everything but the first descriptor byte
+    # is equal) arrive in separate bags one after the other, in both orders and through every entry point; each parse must return the cell its own bag denotes
+    if R.shard == 0:
+        leaf = rc.RC('10110')
+        sub = rc.RC('0110', (leaf,))
+        pr = rc.make_pruned(sub, 1)
+        exotics = [rc.make_library(bytes(range(32))), rc.make_library(rng.randbytes(32)), pr, rc.make_merkle_proof(sub), rc.make_merkle_proof(rc.RC('1', (pr,))),
+                   rc.make_merkle_update(sub, rc.RC('111', (leaf,))), rc.make_merkle_update(pr, pr)]
+        for ex in exotics:
+            twin = rc.RC(ex.bits, ex.refs)                  # the ordinary cell with the same data and references
+            pairs = [(ex, twin), (twin, ex)]
+            for first, second in pairs:
+                for ename, entry in (('Cell.one_from_boc', lambda b: B.Cell.one_from_boc(b)), ('Cell.from_boc', lambda b: B.Cell.from_boc(b)[0]),
+                                     ('parent-bag', lambda b: B.Cell.one_from_boc(b))):
+                    seq = [first, second, first]
+                    if ename == 'parent-bag':
+                        # each twin as the child of an ordinary parent, so that the twins are inner cells of their bags
+                        seq = [rc.RC('01', (x,)) for x in seq]
+                    for k, x in enumerate(seq):
+                        for opts in ((False, False, False), (True, True, False)):
+                            st, got = mon.call(entry, rc.encode_boc([x], has_idx=opts[0], has_crc=opts[1]))
+                            R.counters['oracle_evaluations'] += 1
+                            R.count('type_twin_parses')
+                            W = {'entry': ename, 'position': k, 'type': x.type if ename != 'parent-bag' else x.refs[0].type, 'first_parsed_type': first.type, 'boc': rc.encode_boc([x])}
+                            if st == 'exc':
+                                R.violation(f'type-twin-sequence-raises-{type(got).__name__}', f'{ename}: a bag parsed after the bag of its twin of another type raised {got!r}', W)
+                            else:
+                                inner = got if ename != 'parent-bag' else got.refs[0]
+                                want = x if ename != 'parent-bag' else x.refs[0]
+                                R.check(got.hash == x.hash and inner.type_ == want.type and inner.hash == want.hash, 'type-twin-sequence-confused',
+                                        f'{ename}: a cell parsed after its twin of another type came back as type {inner.type_} / hash {inner.hash.hex()[:16]}, the bag denotes type {want.type} / '
+                                        f'{want.hash.hex()[:16]}: the result depends on what was parsed before', W)
     inv.uninstall()
     # hex that is also valid base64 and vice versa: form detection must not depend on content
     for b in (b'\xb5\xee\x9c\x72\x01\x01\x01\x01\x00\x02\x00\x00\x00',):
@@ -135,6 +167,8 @@ def run(R):
     R.floor('multi_bag_sequences', 10)
     R.floor('direct_construction_dags', 40)
     R.floor('reserialised_parsed_dags', 20)
+    if R.shard == 0:
+        R.floor('type_twin_parses', 200)
 
 
 def max_fanin(cells):
